@@ -298,7 +298,7 @@ class C13(Check):
             return False
         if kind in ('textio', 'duck'):
             return True      # cannot be wrapped: "can't defuse ... not seekable"
-        if kind == 'buffered' and case['prolog'] in ('pad66k', 'subsetpad66k'):
+        if kind in ('buffered', 'raw') and case['prolog'] in ('pad66k', 'subsetpad66k'):
             return True      # prolog beyond DefusableReader's 64 KiB buffer
         return False
 
